@@ -7,6 +7,7 @@ PID = 'C01'
 TARGETS = ['Properties/C01.vo', 'Bridge/FragBridge.vo', 'Bridge/MoveBridge.vo', 'Bridge/IntBridge.vo', 'Bridge/DataBridge.vo', 'Bridge/BitsBridge.vo', 'Bridge/CodegenBridge.vo', 'Bridge/RefBridge.vo', 'Bridge/PlumbingBridge.vo']
 KERNELS = ['G1_frag', 'G3_move', 'G4_seq', 'G5_bits', 'G6_int', 'G8_data', 'G11_codegen', 'G16_ref', 'G16b_optional', 'G17_builder', 'G19_field_ctor']
 PROP_FILE = 'Properties/C01.v'
+WHOLE_PACKET = True      # Tie A over all of the pack / unpack machinery (check.py: WHOLE_PACKET_KERNELS)
 
 
 def start_of_data_positioning(table):
